@@ -241,6 +241,17 @@ def r_iter(ctx, rule='R-BQ-ITER'):
     if not ctx.need(len(p) == 1, rule, 'BinaryQuantizedIterator::next'):
         return
     f = F.fn(p[0])
+    # the iterator's state, by type (field names are free): the u64 word being consumed and the usize bit counter
+    it_adt = [a for pth, a in F.adts.items() if pth.endswith('BinaryQuantizedIterator')]
+    WORD = COUNT = None
+    if it_adt:
+        flds = [fl for v in it_adt[0]['variants'] for fl in v['fields']]
+        words = [fl['name'] for fl in flds if fl['ty'] == 'u64']
+        counts = [fl['name'] for fl in flds if fl['ty'] == 'usize']
+        WORD = words[0] if len(words) == 1 else None
+        COUNT = counts[0] if len(counts) == 1 else None
+    if not ctx.need(WORD is not None and COUNT is not None, rule, 'iterator state: one u64 word field and one usize counter field'):
+        return
     somes = [strip(t) for b, k, t in paths.ret_assigns(f) if strip(t)[0] == 'agg' and strip(t)[2] == 'Some']
     good = False
     if len(somes) == 1:
@@ -255,7 +266,7 @@ def r_iter(ctx, rule='R-BQ-ITER'):
                 return float(x) if x is not None else None
             if t0[0] == 'binop':
                 a, b = ev(t0[2], bit), ev(t0[3], bit)
-                if t0[1] == 'BitAnd' and const_eval(t0[3]) == 1 and strip(t0[2])[0] == 'field' and strip(t0[2])[2] == 'current_element':
+                if t0[1] == 'BitAnd' and const_eval(t0[3]) == 1 and strip(t0[2])[0] == 'field' and strip(t0[2])[2] == WORD:
                     return bit
                 if a is None or b is None:
                     return None
@@ -268,12 +279,12 @@ def r_iter(ctx, rule='R-BQ-ITER'):
     for bi, blk in enumerate(f.blocks):
         for si, st in enumerate(blk['stmts']):
             pl = st['place']
-            if pl['p'] and pl['p'][-1]['k'] == 'field' and pl['p'][-1]['n'] in ('current_element', 'current_iteration'):
+            if pl['p'] and pl['p'][-1]['k'] == 'field' and pl['p'][-1]['n'] in (WORD, COUNT):
                 rv = st['rv']
                 t = f.term(rv['o']) if rv['k'] == 'use' else f._def_term(('assign', bi, si, rv, []), 0, frozenset())
                 upd.setdefault(pl['p'][-1]['n'], []).append((bi, strip(t)))
-    ce = upd.get('current_element', [])
-    ci = upd.get('current_iteration', [])
+    ce = upd.get(WORD, [])
+    ci = upd.get(COUNT, [])
     shr = [t for b, t in ce if t[0] == 'binop' and t[1] == 'Shr' and const_eval(t[3]) == 1]
     load = [t for b, t in ce if t[0] == 'call' and t[1].endswith('<impl u64>::from_ne_bytes')]
     inc = [t for b, t in ci if (t[0] == 'field' and t[1][0] == 'binop' and t[1][1].startswith('Add') and const_eval(t[1][3]) == 1) or (t[0] == 'binop' and t[1].startswith('Add') and const_eval(t[3]) == 1)]
@@ -284,7 +295,7 @@ def r_iter(ctx, rule='R-BQ-ITER'):
             e = paths.edge_cond(f, b, s)
             if e and e[0] == 'bool' and e[2]:
                 c = strip(e[1])
-                if c[0] == 'binop' and c[1] == 'Ge' and const_eval(c[3]) == 64 and 'current_iteration' in show(c[2]):
+                if c[0] == 'binop' and c[1] == 'Ge' and const_eval(c[3]) == 64 and strip(c[2])[0] == 'field' and strip(c[2])[2] == COUNT:
                     reload_cond = True
     ctx.check(len(shr) == 1 and len(load) == 1 and len(inc) == 1 and len(rst) == 1 and reload_cond and len(ce) == 2 and len(ci) == 2, rule, 'state-machine', f.loc(),
               'LSB first (>>= 1), counter +1, reload a native-endian u64 when 64 bits are consumed',
